@@ -33,11 +33,17 @@ import (
 // ops (see notes/C14.md):
 //   open lo= hi= resume= plant=     new session on the case's temp dir (closes a previous one); plant = plain
 //                                   keys put into the torrents bucket so that resumer.Write fails for that id
-//   add kind=t tid= ih= name= trk= ws= id= stopped= sad= sam= seq=     AddTorrent(tiny .torrent)
+//   add kind=t tid= ih= name= trk= ws= id= stopped= sad= sam= seq= [np=]   AddTorrent(tiny .torrent with np pieces, default 1)
 //   add kind=m ih= name= trk= pe= id= stopped= sad= sam= seq=          AddURI(magnet)
 //   add kind=bad bytes=<hex> | add kind=baduri uri=<hex>               failing input
 //   remove t=<k> | start t= | stop t= | addtracker t= url= | bump t= dl= ul= wa= se= | flush
-//   compact | swap resume= | reopen resume=
+//   compact | swap resume= | clean (CleanDatabase)
+//   reopen resume= [spoil=<k>:<how>,…] [maxpieces=<n>] [stofail=<k>,…]
+//       Close, then — while the file is closed — damage the stored record of the torrent of the k-th add
+//       (how = bitfield: a bitfield of the wrong length; info: info bytes that are no bencoding; infohash: an
+//       info-hash of 19 bytes; a record without info bytes always gets how=infohash), then NewSession with
+//       Config.MaxPieces = n (0/absent = default) and a storage provider that fails for the listed torrents.
+//       All three make loadExistingTorrent fail after the record was read.
 // `t=<k>` names the torrent created by the k-th add op of the case.
 // obs: <result> | F=<free ports> | T=<live torrents> | D=<db records> | X=<infohash index> | I=<invalid ids>
 
@@ -162,12 +168,20 @@ func showTiers(tiers [][]string) string {
 
 // regTorrentBytes builds a tiny valid single-file .torrent. The info dict depends on tid and name only.
 func regTorrentBytes(tid int, name string, trackers [][]string, webseeds []string) []byte {
-	pieces := make([]byte, 20)
+	return regTorrentBytesN(tid, name, trackers, webseeds, 1)
+}
+
+// regTorrentBytesN: the same with np pieces (np = 1 gives the bytes of regTorrentBytes).
+func regTorrentBytesN(tid int, name string, trackers [][]string, webseeds []string, np int) []byte {
+	if np < 1 {
+		np = 1
+	}
+	pieces := make([]byte, 20*np)
 	for i := range pieces {
 		pieces[i] = byte(tid*31 + i*7 + 1)
 	}
 	info := map[string]interface{}{
-		"length":       int64(5 + tid),
+		"length":       int64(5+tid) + int64(np-1)*16384,
 		"name":         name,
 		"piece length": int64(16384),
 		"pieces":       string(pieces),
@@ -190,8 +204,10 @@ func regTorrentBytes(tid int, name string, trackers [][]string, webseeds []strin
 	return b
 }
 
-func regInfoHash(tid int, name string) string {
-	mi, err := metainfo.New(bytes.NewReader(regTorrentBytes(tid, name, nil, nil)))
+func regInfoHash(tid int, name string) string { return regInfoHashN(tid, name, 1) }
+
+func regInfoHashN(tid int, name string, np int) string {
+	mi, err := metainfo.New(bytes.NewReader(regTorrentBytesN(tid, name, nil, nil, np)))
 	if err != nil {
 		panic(err)
 	}
@@ -200,7 +216,9 @@ func regInfoHash(tid int, name string) string {
 
 // ---- in-memory storage ----
 
-type memProvider struct{}
+type memProvider struct {
+	fail *sync.Map // ids for which GetStorage fails (besides the nosto* ids)
+}
 
 type memStorage struct {
 	id string
@@ -213,9 +231,14 @@ type memFile struct {
 	b  []byte
 }
 
-func (memProvider) GetStorage(id string) (storage.Storage, error) {
+func (p memProvider) GetStorage(id string) (storage.Storage, error) {
 	if strings.HasPrefix(id, "nosto") {
 		return nil, fmt.Errorf("verif: no storage for %s", id)
+	}
+	if p.fail != nil {
+		if _, bad := p.fail.Load(id); bad {
+			return nil, fmt.Errorf("verif: no storage for %s", id)
+		}
 	}
 	return &memStorage{id: id, fs: map[string]*memFile{}}, nil
 }
@@ -284,23 +307,102 @@ func regConfig(dir string, lo, hi int, resume bool) torrent.Config {
 	cfg.ResumeOnStartup = resume
 	cfg.ResumeWriteInterval = time.Hour
 	cfg.BlocklistURL = ""
-	cfg.CustomStorage = memProvider{}
+	cfg.CustomStorage = memProvider{fail: &regStoFail}
 	cfg.TrackerStopTimeout = 50 * time.Millisecond
 	cfg.MaxTorrentSize = 64 << 10
 	return cfg
 }
 
-func (e *regEnv) open(lo, hi int, resume bool) string {
-	if e.ses != nil {
-		e.ses.Close()
-		e.ses = nil
+// regStoFail: ids for which the storage provider fails; only filled while a session is being opened.
+var regStoFail sync.Map
+
+// closeSession closes the session; a panic inside Close (the stats writer dereferences a missing bucket) is
+// reported, the session is gone either way.
+func (e *regEnv) closeSession() (res string) {
+	if e.ses == nil {
+		return "ok"
 	}
-	s, err := torrent.NewSession(regConfig(e.dir, lo, hi, resume))
+	s := e.ses
+	e.ses = nil
+	defer func() {
+		if r := recover(); r != nil {
+			res = "panic:close"
+			// the database file is still open and locked: close it so that the directory can be removed
+			_ = torrent.VerifDB(s).Close()
+		}
+	}()
+	s.Close()
+	return "ok"
+}
+
+func (e *regEnv) open(lo, hi int, resume bool) string {
+	return e.openWith(lo, hi, resume, nil, 0, nil)
+}
+
+// openWith: Close, damage records (spoil: id -> how), NewSession with MaxPieces and failing storage ids.
+func (e *regEnv) openWith(lo, hi int, resume bool, spoil [][2]string, maxPieces int, stofail []string) string {
+	if r := e.closeSession(); r != "ok" {
+		return r
+	}
+	if len(spoil) > 0 {
+		if err := regSpoil(filepath.Join(e.dir, "session.db"), spoil); err != nil {
+			return "err:spoil:" + sanitize(err.Error())
+		}
+	}
+	cfg := regConfig(e.dir, lo, hi, resume)
+	if maxPieces > 0 {
+		cfg.MaxPieces = uint32(maxPieces)
+	}
+	for _, id := range stofail {
+		regStoFail.Store(id, true)
+	}
+	s, err := torrent.NewSession(cfg)
+	for _, id := range stofail {
+		regStoFail.Delete(id)
+	}
 	if err != nil {
 		return "err:" + sanitize(err.Error())
 	}
 	e.ses, e.lo, e.hi = s, lo, hi
 	return "ok"
+}
+
+// regSpoil damages stored records in the closed database file.
+func regSpoil(path string, spoil [][2]string) error {
+	db, err := bbolt.Open(path, 0600, &bbolt.Options{Timeout: time.Second})
+	if err != nil {
+		return err
+	}
+	defer db.Close()
+	return db.Update(func(tx *bbolt.Tx) error {
+		tb := tx.Bucket(torrent.VerifTorrentsBucket())
+		if tb == nil {
+			return nil
+		}
+		for _, sp := range spoil {
+			b := tb.Bucket([]byte(sp[0]))
+			if b == nil {
+				continue
+			}
+			how := sp[1]
+			if len(b.Get(boltdbresumer.Keys.Info)) == 0 {
+				how = "infohash"
+			}
+			switch how {
+			case "bitfield":
+				_ = b.Put(boltdbresumer.Keys.Bitfield, []byte{0xff, 0xff, 0xff, 0xff, 0xff, 0xff, 0xff})
+			case "info":
+				_ = b.Put(boltdbresumer.Keys.Info, []byte("this is not bencoded"))
+			default:
+				ih := append([]byte(nil), b.Get(boltdbresumer.Keys.InfoHash)...)
+				if len(ih) > 19 {
+					ih = ih[:19]
+				}
+				_ = b.Put(boltdbresumer.Keys.InfoHash, ih)
+			}
+		}
+		return nil
+	})
 }
 
 func sanitize(s string) string {
@@ -363,7 +465,7 @@ func (e *regEnv) add(m map[string]string) string {
 	var err error
 	switch m["kind"] {
 	case "t":
-		b := regTorrentBytes(atoi(m["tid"]), tokName(m["name"]), parseTiers(m["trk"]), urlList(m["ws"]))
+		b := regTorrentBytesN(atoi(m["tid"]), tokName(m["name"]), parseTiers(m["trk"]), urlList(m["ws"]), atoi(m["np"]))
 		t, err = e.ses.AddTorrent(bytes.NewReader(b), opt)
 	case "m":
 		t, err = e.ses.AddURI(regMagnet(m), opt)
@@ -608,9 +710,7 @@ func execRegistry(ops []string) []string {
 	}
 	e := &regEnv{dir: dir}
 	defer func() {
-		if e.ses != nil {
-			e.ses.Close()
-		}
+		e.closeSession()
 		os.RemoveAll(dir)
 	}()
 	var out []string
@@ -669,8 +769,21 @@ func execRegistry(ops []string) []string {
 				res = "ok"
 			}
 		case "flush":
-			torrent.VerifUpdateStats(e.ses)
-			res = "ok"
+			res = func() (r string) {
+				defer func() {
+					if recover() != nil {
+						r = "panic:nilderef"
+					}
+				}()
+				torrent.VerifUpdateStats(e.ses)
+				return "ok"
+			}()
+		case "clean":
+			if err := e.ses.CleanDatabase(); err != nil {
+				res = "err:clean"
+			} else {
+				res = "ok"
+			}
 		case "bfcheck":
 			// a torrent that had no bitfield before the compaction and has none now must have none in compact.db
 			res = "bf=same"
@@ -704,8 +817,10 @@ func execRegistry(ops []string) []string {
 				res = "nocompact"
 				break
 			}
-			e.ses.Close()
-			e.ses = nil
+			if r := e.closeSession(); r != "ok" {
+				res = r
+				break
+			}
 			if err := os.Rename(filepath.Join(dir, "compact.db"), filepath.Join(dir, "session.db")); err != nil {
 				res = "err:rename"
 				break
@@ -713,7 +828,17 @@ func execRegistry(ops []string) []string {
 			e.compact = false
 			res = e.open(e.lo, e.hi, m["resume"] == "1")
 		case "reopen":
-			res = e.open(e.lo, e.hi, m["resume"] == "1")
+			var spoil [][2]string
+			for _, sp := range commaList(m["spoil"]) {
+				if i := strings.IndexByte(sp, ':'); i > 0 {
+					spoil = append(spoil, [2]string{e.refID(atoi(sp[:i])), sp[i+1:]})
+				}
+			}
+			var stofail []string
+			for _, k := range commaList(m["stofail"]) {
+				stofail = append(stofail, e.refID(atoi(k)))
+			}
+			res = e.openWith(e.lo, e.hi, m["resume"] == "1", spoil, atoi(m["maxpieces"]), stofail)
 		default:
 			res = "err:badop"
 		}
@@ -801,7 +926,8 @@ func genRegistry(r *Rng, n int, tier string) []Case {
 				if len(tiers) > 0 {
 					trk = strings.Join(tiers, "/")
 				}
-				return fmt.Sprintf("add kind=t tid=%d ih=%s name=%s trk=%s ws=%s %s", tid, regInfoHash(tid, name), name, trk, plusList(ws), flags)
+				np := r.Pick(1, 1, 1, 2, 3)
+				return fmt.Sprintf("add kind=t tid=%d ih=%s name=%s trk=%s ws=%s %s np=%d", tid, regInfoHashN(tid, name, np), name, trk, plusList(ws), flags, np)
 			case k < 9:
 				tid := r.Range(1, 3)
 				name := names[r.Intn(len(names))]
@@ -837,7 +963,52 @@ func genRegistry(r *Rng, n int, tier string) []Case {
 				return fmt.Sprintf("add kind=baduri uri=%s %s", hexs([]byte(u)), flags)
 			}
 		}
+		// directed histories outside the tame ones (known findings F07, F08): a record that failed to load loads again
+		// after its port was given away; an explicit id that is listed as invalid is used again and CleanDatabase runs
+		if d := r.Intn(100); d < 3 {
+			lo2 := 20000 + r.Intn(40000)
+			ops = []string{fmt.Sprintf("open lo=%d hi=%d resume=%s plant=-", lo2, lo2+1, b01(r.Bool())),
+				fmt.Sprintf("add kind=t tid=1 ih=%s name=n1 trk=- ws=- id=e1 stopped=%s sad=0 sam=0 seq=0 np=2", regInfoHashN(1, "n1", 2), b01(r.Bool())),
+				fmt.Sprintf("reopen resume=%s maxpieces=1", b01(r.Bool())),
+				fmt.Sprintf("add kind=t tid=2 ih=%s name=n2 trk=- ws=- id=- stopped=1 sad=0 sam=0 seq=0 np=1", regInfoHashN(2, "n2", 1)),
+				fmt.Sprintf("reopen resume=%s", b01(r.Bool()))}
+			cases = append(cases, Case{ID: fmt.Sprintf("registry-%d", i+1), Ops: ops})
+			continue
+		} else if d < 6 {
+			ops = []string{fmt.Sprintf("open lo=%d hi=%d resume=1 plant=-", lo, lo+size)}
+			ops = append(ops,
+				fmt.Sprintf("add kind=t tid=1 ih=%s name=n1 trk=u1 ws=- id=e1 stopped=1 sad=0 sam=0 seq=0 np=1", regInfoHashN(1, "n1", 1)),
+				fmt.Sprintf("reopen resume=1 spoil=1:%s", r.PickS("bitfield", "info", "infohash")),
+				fmt.Sprintf("add kind=t tid=2 ih=%s name=n2 trk=- ws=- id=e1 stopped=1 sad=0 sam=0 seq=0 np=1", regInfoHashN(2, "n2", 1)),
+				"clean")
+			cases = append(cases, Case{ID: fmt.Sprintf("registry-%d", i+1), Ops: ops})
+			continue
+		}
 		ops = append(ops, genAdd())
+		ref0 := func() int {
+			if nadd == 0 {
+				return 1
+			}
+			return r.Range(1, nadd)
+		}
+		// a restart, sometimes with records that are read but fail to load
+		genReopen := func() string {
+			op := fmt.Sprintf("reopen resume=%s", b01(r.Chance(75)))
+			if r.Chance(22) {
+				var sp []string
+				for j, k := 0, r.Pick(1, 1, 2); j < k; j++ {
+					sp = append(sp, fmt.Sprintf("%d:%s", ref0(), r.PickS("bitfield", "info", "infohash")))
+				}
+				op += " spoil=" + strings.Join(sp, ",")
+			}
+			if r.Chance(10) {
+				op += fmt.Sprintf(" maxpieces=%d", r.Pick(1, 1, 2))
+			}
+			if r.Chance(8) {
+				op += fmt.Sprintf(" stofail=%d", ref0())
+			}
+			return op
+		}
 		for j := 1; j < nops; j++ {
 			ref := func() int {
 				if r.Chance(8) {
@@ -862,14 +1033,19 @@ func genRegistry(r *Rng, n int, tier string) []Case {
 				ops = append(ops, fmt.Sprintf("addtracker t=%d url=%s", ref(), u))
 			case k < 75:
 				ops = append(ops, fmt.Sprintf("bump t=%d dl=%d ul=%d wa=%d se=%d", ref(), r.Pick(0, 1, 16384, 1<<40), r.Pick(0, 7, 1<<33), r.Pick(0, 3), r.Pick(0, 1, 1500000000, 3600000000000, 86400000000001)))
-			case k < 79:
+			case k < 78:
 				ops = append(ops, "flush")
+			case k < 80:
+				ops = append(ops, "clean")
 			case k < 87:
 				ops = append(ops, "compact", "bfcheck")
 			case k < 91:
 				ops = append(ops, fmt.Sprintf("swap resume=%s", b01(r.Chance(70))))
 			default:
-				ops = append(ops, fmt.Sprintf("reopen resume=%s", b01(r.Chance(75))))
+				ops = append(ops, genReopen())
+				if r.Chance(25) {
+					ops = append(ops, "clean")
+				}
 				if r.Chance(50) {
 					// a burst of writes to the resume database right after the restart: the pages the loaded records
 					// were read from are freed and reused while the loaded torrents live on
@@ -887,7 +1063,10 @@ func genRegistry(r *Rng, n int, tier string) []Case {
 			}
 		}
 		if r.Chance(60) {
-			ops = append(ops, fmt.Sprintf("reopen resume=%s", b01(r.Chance(75))))
+			ops = append(ops, genReopen())
+			if r.Chance(20) {
+				ops = append(ops, "clean", fmt.Sprintf("reopen resume=%s", b01(r.Bool())))
+			}
 		}
 		cases = append(cases, Case{ID: fmt.Sprintf("registry-%d", i+1), Ops: ops})
 	}
